@@ -269,6 +269,7 @@ func convCisco(env *run.Env, g *genCase, o *convOutcome, changed, wantPrefixes b
 		}
 	}
 	dev.LeaveConfig()
+	o.Final = dev
 	if inc := dev.IncompleteFresh(); inc != "" && o.Exec == nil {
 		o.Exec = &clause{"rejected:position", "sub-commands sent under a sequence number that is not their entry's: " + inc}
 		o.ExecStep = len(o.Commands) - 1
